@@ -358,6 +358,9 @@ class Effects:
             out |= self._unbound_in_handlers(st, f)
             return out
         if isinstance(st, (ast.If, ast.While)):
+            if isinstance(st, ast.If) and self._dead_by_default(st.test, f):
+                # the branch needs an optional argument that no call in the package supplies
+                return self._block(st.orelse, f, caught)
             return (self._expr(st.test, f) | self._block(st.body, f, caught)
                     | self._block(st.orelse, f, caught))
         if isinstance(st, (ast.For, ast.AsyncFor)):
@@ -392,6 +395,59 @@ class Effects:
             if isinstance(child, ast.expr):
                 out |= self._expr(child, f)
         return out
+
+    def _dead_by_default(self, test: ast.expr, f: FuncInfo) -> bool:
+        """The test starts with `p is not None` (or `p`) for a parameter p of *f* whose default is
+        None and that no call in the analysed package supplies (matched by the function's name -
+        for __init__ by the class's name -, so a same-named function that does get the argument
+        keeps the branch alive).  Inside the package the branch never runs; what a user's own call
+        with that argument raises is raised to the user at that call."""
+        t = test
+        if isinstance(t, ast.BoolOp) and isinstance(t.op, ast.And):
+            t = t.values[0]
+        name = None
+        if isinstance(t, ast.Compare) and len(t.ops) == 1 and isinstance(t.ops[0], ast.IsNot) \
+                and isinstance(t.left, ast.Name) and isinstance(t.comparators[0], ast.Constant) \
+                and t.comparators[0].value is None:
+            name = t.left.id
+        elif isinstance(t, ast.Name):
+            name = t.id
+        if name is None:
+            return False
+        a = f.node.args
+        allp = a.posonlyargs + a.args
+        defaults = dict(zip([x.arg for x in allp][len(allp) - len(a.defaults):], a.defaults))
+        defaults.update({k.arg: d for k, d in zip(a.kwonlyargs, a.kw_defaults) if d is not None})
+        d = defaults.get(name)
+        if not (isinstance(d, ast.Constant) and d.value is None):
+            return False
+        if any(isinstance(x, ast.Name) and x.id == name and isinstance(x.ctx, ast.Store) for x in ast.walk(f.node)):
+            return False
+        cache = self.__dict__.setdefault("_supplied", {})
+        key = (f, name)
+        if key not in cache:
+            fname = f.cls.name if (f.cls is not None and f.name == "__init__") else f.name
+            pos = [x.arg for x in allp]
+            idx = pos.index(name) - (1 if pos and pos[0] in ("self", "cls") else 0) if name in pos else None
+            supplied = False
+            for m in self.model.modules.values():
+                for c in ast.walk(m.tree):
+                    if not isinstance(c, ast.Call):
+                        continue
+                    fn = c.func
+                    cn = fn.id if isinstance(fn, ast.Name) else fn.attr if isinstance(fn, ast.Attribute) else None
+                    if cn != fname:
+                        continue
+                    if any(k.arg == name or k.arg is None for k in c.keywords) \
+                            or any(isinstance(x, ast.Starred) for x in c.args) \
+                            or (idx is not None and len(c.args) > idx and not (
+                                isinstance(c.args[idx], ast.Constant) and c.args[idx].value is None)):
+                        supplied = True
+                        break
+                if supplied:
+                    break
+            cache[key] = supplied
+        return not cache[key]
 
     def _unbound_in_handlers(self, st: ast.Try, f: FuncInfo) -> set[str]:
         """Definite assignment on the error path: an except / finally clause that reads a local
